@@ -9,7 +9,9 @@
  * op 2  area, complete small scope: EVERY polyline of 2..4 (thorough 5) vertices with gaps in {1/2,1,3} and ordinates in
  *                   {-1,0,1/2,2}: exact integral, additivity at EVERY split vertex (all arithmetic is exact in double)
  * op 3  area, indexed dyadic polylines of 2..12 vertices at x scales 2^-10, 1, 2^10
- * op 4  simplex     strictly convex quadratics, dim 2..6, kappa {1,10,100}, 4 start x 3 step families
+ * op 4  simplex     strictly convex quadratics, dim 2..6, kappa {1,10,100}, 4 start x 3 step families, budgets 4000 dim, 90 % of
+ *                   it, and 0,1,2,3,5,8,13,25,60 iterations; Rosenbrock chain and a cusp function for the two clauses that hold
+ *                   for any objective
  *
  * Key classes:  dx<1e-2  := the evaluation point lies strictly to the right of an interior knot by less than 1e-2, the
  * ABSOLUTE tolerance of the library's piece lookup (interpolate.c:91); everything else carries no class suffix. */
@@ -260,28 +262,35 @@ static void op_area_indexed(void) {
 
 /* ====================================================================================================== simplex */
 #define DMAX 6
-static struct { int d; double A[DMAX * DMAX], xs[DMAX], c; long evals; } Q;
+static struct { int d, kind; double A[DMAX * DMAX], xs[DMAX], c; long evals; } Q;
+/* kind 0: strictly convex quadratic (all three clauses of the statement are judged)
+ * kind 1: Rosenbrock chain, kind 2: sum of sqrt|x_i - x*_i| (cusps, concave on each side: the simplex shrinks) --
+ *         "reports the value of the point it returns" and "never worse than the best initial vertex" hold for ANY
+ *         objective, so they are judged on these too; convergence is only promised for quadratics and is not judged */
 static double quad(dvector *x) {
   Q.evals++;
+  if (Q.kind == 1) { double r = 0; for (int i = Q.d - 1; i > 0; i--) { double a = x->data[i] - x->data[i - 1] * x->data[i - 1], b = 1 - x->data[i - 1]; r += 100 * a * a + b * b; } return r + Q.c; }
+  if (Q.kind == 2) { double r = 0; for (int i = 0; i < Q.d; i++) r += sqrt(fabs(x->data[i] - Q.xs[i])); return r + Q.c; }
   double s = 0; for (int i = 0; i < Q.d; i++) { double r = 0; for (int j = 0; j < Q.d; j++) r += Q.A[i * Q.d + j] * (x->data[j] - Q.xs[j]); s += (x->data[i] - Q.xs[i]) * r; }
   return s + Q.c;
 }
 static void op_simplex(void) {
   static const double KAP[3] = {1, 10, 100};
-  int d = 2 + vx_choose("dim-2", 5), ki = vx_choose("kappa", 3), st = vx_choose("start", 4), sp = vx_choose("step", 3), fam = vx_choose("fam", vx_thorough() ? 3 : 1);
+  int d = 2 + vx_choose("dim-2", 5), kind = vx_choose("objective", 3), ki = vx_choose("kappa", 3), st = vx_choose("start", 4), sp = vx_choose("step", 3), fam = vx_choose("fam", vx_thorough() ? 3 : 1);
+  vx_require(kind == 0 || ki == 0);
   /* f(x) = (x-x*)' A (x-x*) + c,  A = Q diag(lambda) Q',  lambda geometric from 1 to kappa: strictly convex, f* = c at x* */
   double Qm[DMAX * DMAX], lam[DMAX]; vg_orth(1500 + fam * 8 + ki, d, Qm);
   for (int i = 0; i < d; i++) lam[i] = pow(KAP[ki], (double)i / (d - 1));
-  Q.d = d; Q.c = 0.75 - fam; Q.evals = 0;
+  Q.d = d; Q.kind = kind; Q.c = 0.75 - fam; Q.evals = 0;
   for (int i = 0; i < d; i++) for (int j = i; j < d; j++) { ld s = 0; for (int t = 0; t < d; t++) s += (ld)Qm[i * d + t] * lam[t] * Qm[j * d + t]; Q.A[i * d + j] = Q.A[j * d + i] = (double)s; }
-  for (int i = 0; i < d; i++) Q.xs[i] = 3 * vg_val(1510 + fam, i, 0);
+  for (int i = 0; i < d; i++) Q.xs[i] = kind == 1 ? 1.0 : 3 * vg_val(1510 + fam, i, 0);
   double x0[DMAX], stp[DMAX];
   for (int i = 0; i < d; i++) {
     double v = vg_val(1520 + fam, i, st);
     x0[i] = st == 0 ? Q.xs[i] + v : st == 1 ? Q.xs[i] + 20 * v : st == 2 ? 0.0 : 1e3 * v;              /* near, far, origin, very far */
     stp[i] = sp == 0 ? 0.5 : sp == 1 ? 0.05 + 0.1 * fabs(vg_val(1530, i, 0)) : (i % 2 ? -2.0 : 2.0);   /* default (NULL), small irregular, large alternating */
   }
-  char tag[120]; snprintf(tag, sizeof tag, "dim=%d kappa=%g start=%d step=%d fam=%d", d, KAP[ki], st, sp, fam);
+  char tag[140]; snprintf(tag, sizeof tag, "%s dim=%d kappa=%g start=%d step=%d fam=%d", kind == 0 ? "quadratic" : kind == 1 ? "rosenbrock" : "sqrt-cusp", d, KAP[ki], st, sp, fam);
   dvector *xv = hv_new(d, x0), *sv = sp == 0 ? NULL : hv_new(d, stp), *tmp = hv_new(d, x0);
   /* the best vertex of the initial simplex, built as the routine documents it: x0 and x0 + step_j e_j */
   double f0 = quad(tmp), fbest0 = f0;
@@ -305,12 +314,28 @@ static void op_simplex(void) {
     vx_check(r1 <= fbest0 && r2 <= fbest0, "not-worse-than-start|NelderMeadSimplex", "%s: reports %.17g (short run %.17g), best initial vertex %.17g", tag, r2, r1, fbest0);
     /* "converges to the minimiser": judged on outcome, only stagnation away from the optimum fails (DESIGN 6.0):
      * gap above the allowance AND no decrease of f over the last 10 %% of the 4000*dim budget */
-    double gap = r2 - Q.c, allow = 1e-6 * fmax(1.0, f0 - Q.c); int stagnated = !(r2 < r1);
-    margin_note("converges|NelderMeadSimplex", gap / allow);
-    snprintf(key, sizeof key, "converges|NelderMeadSimplex|%s", cls);
-    vx_check(gap <= allow || !stagnated, key, "%s: f(best) - f* = %.3g > %.3g and no progress in the last 10%% of %zu iterations (f(x0) - f* = %.3g)", tag, gap, allow, budget, f0 - Q.c);
+    if (kind == 0) {
+      double gap = r2 - Q.c, allow = 1e-6 * fmax(1.0, f0 - Q.c); int stagnated = !(r2 < r1);
+      margin_note("converges|NelderMeadSimplex", gap / allow);
+      snprintf(key, sizeof key, "converges|NelderMeadSimplex|%s", cls);
+      vx_check(gap <= allow || !stagnated, key, "%s: f(best) - f* = %.3g > %.3g and no progress in the last 10%% of %zu iterations (f(x0) - f* = %.3g)", tag, gap, allow, budget, f0 - Q.c);
+    }
     vx_check(r2 >= Q.c - 1e-9 * fmax(1.0, fabs(Q.c)), "below-minimum|NelderMeadSimplex", "%s: reports %.17g below the minimum %.17g of the objective", tag, r2, Q.c);
-    uint64_t h = hv_hash(b2, 140); h = vx_hash_doubles(&r2, 1, h); vx_outcome(h);
+    uint64_t h = hv_hash(b2, 140); h = vx_hash_doubles(&r2, 1, h);
+    /* the first two clauses hold for every iteration budget, in particular before anything has converged */
+    static const size_t SMALL[9] = {0, 1, 2, 3, 5, 8, 13, 25, 60};
+    for (int bi = 0; bi < 9; bi++) {
+      dvector *b3; initDVector(&b3);
+      arm("NelderMeadSimplex", cls); double r3 = NelderMeadSimplex(&quad, xv, sv, 1e-12, SMALL[bi], b3); disarm(); vx_transition(1);
+      if ((int)b3->size == d) {
+        double re3 = quad(b3);
+        vx_check(re3 == r3, "reported-value|NelderMeadSimplex", "%s after %zu iterations: reports %.17g but f(best) = %.17g", tag, SMALL[bi], r3, re3);
+        vx_check(r3 <= fbest0, "not-worse-than-start|NelderMeadSimplex", "%s after %zu iterations: reports %.17g, best initial vertex %.17g", tag, SMALL[bi], r3, fbest0);
+        h = vx_hash_doubles(&r3, 1, h);
+      } else vx_check(0, "shape|NelderMeadSimplex", "%s after %zu iterations: best has %zu entries", tag, SMALL[bi], b3->size);
+      DelDVector(&b3);
+    }
+    vx_outcome(h);
   } else vx_outcome(3);
   DelDVector(&xv); if (sv) DelDVector(&sv); DelDVector(&tmp); DelDVector(&b1); DelDVector(&b2);
 }
@@ -331,7 +356,7 @@ static void body(void) {
 int main(int argc, char **argv) {
   vg_seed(getenv("VERIF_SEED") ? atol(getenv("VERIF_SEED")) : 0);
   vx_describe("alphabet", "spline: knots {3,4,5,8,40} x spacing scale {1e-4,1e-3,1e-2,1,1e2,1e4} x {uniform, irregular gaps in [1,8)} x ordinates {line, parabola, general, alternating} x origin {0, negative}; evaluation at every knot, every midpoint, 1 ulp inside both ends of every piece; unit factors {1e-3,7,1e3}; interpolate()/curve_area(n>0) with 2,3,10,33 points; "
-              "area: EVERY polyline of 2..4 (thorough 5) vertices over gaps {1/2,1,3} x ordinates {-1,0,1/2,2}, indexed dyadic polylines of 2..12 vertices at x scales 2^-10,1,2^10, every split vertex; simplex: quadratics dim 2..6, kappa {1,10,100}, 4 starts x 3 steps (one of them NULL), budget 4000 dim, xtol 1e-12");
+              "area: EVERY polyline of 2..4 (thorough 5) vertices over gaps {1/2,1,3} x ordinates {-1,0,1/2,2}, indexed dyadic polylines of 2..12 vertices at x scales 2^-10,1,2^10, every split vertex; simplex: quadratics dim 2..6, kappa {1,10,100} (plus Rosenbrock and a cusp function for the value/not-worse clauses), 4 starts x 3 steps (one of them NULL), budgets 4000 dim, 0.9 of it and 0..60 iterations, xtol 1e-12");
   vx_describe("oracle", "table: a_j=y_j exactly, S/S'/S'' continuous at interior knots, S''=0 at both ends, 2c=M of a long-double reference; predict = reference spline (tol 1e3 eps ratio (|y|+|M|h^2)); lines reproduced; predict(s x | s knots) = predict(x | knots); curve_area = exact rational integral, additive at every split; simplex: reported value == f(best) bit-exact, <= best initial vertex, stagnation away from the optimum only");
   vx_set_shard_depth(3);
   vx_expect_outcomes(1500);
